@@ -193,7 +193,8 @@ def build_stanza(d, seq=1):
             pattrs = {}
             if MEDIA[media]:
                 pattrs["mediatype"] = MEDIA[media]
-                data = media_payload(media)
+                # the envelope's media type says nothing about the payload: a key distribution on its own travels under any of them
+                data = payload_bytes("keyDistributionOnly") if d.get("payload") == "keyDistributionOnly" else media_payload(media)
             else:
                 data = payload_bytes(d.get("payload", "other"))
             kids.append(N("proto", pattrs, None, data))
